@@ -35,6 +35,11 @@ func lossyRun(w *World, stalled bool) {
 	g := &opGen{tape: t, coll: coll, ids: []string{"a", "b"}}
 	var cfg resCfg
 	g.initial(&cfg)
+	if !coll && t.Flag(1, 3) {
+		// a Value with an equivalence under which writes that differ only in V are equivalent: the most recent value a
+		// lossy subscriber ends on must then agree with the store up to that equivalence
+		cfg.EquivNoV, g.pool = true, true
+	}
 	r := newRealRes(cfg, &simClock{}, &simRNG{})
 	m0 := newModel(cfg)
 	ns := 1 + t.Choose(3)
@@ -154,7 +159,11 @@ func lossyCheck(w *World, r *realRes, m0 *model, coll bool, s *subscriber) {
 			return
 		}
 		last := s.events[len(s.events)-1]
-		if !cur.HasMsg || last.New != cur.Msg {
+		a, b := last.New, cur.Msg
+		if r.cfg.EquivNoV {
+			a.V, b.V = 0, 0
+		}
+		if !cur.HasMsg || a != b {
 			w.Violate("not-latest", fmt.Sprintf("%s [%s] last received %s, the value is %s; events: %s", s.name, s.cfg, last.New, cur, eventsString(s.events)), map[string]any{"resource": "value", "mode": mode})
 		}
 		return
